@@ -11,7 +11,8 @@ MANIFEST = dict(
              "per-part limit up to length 4 (6), and for every pair of such sequences up to length 3 (4) as two dimensions, that "
              "the transcribed splitting/join/C++ set+apply design makes progress, that the raw counts partition the data, that "
              "every in-range point is drawn in exactly its own part, that no out-of-range point is drawn, that cut/trim codes "
-             "lie within one 16-bit code of the exact boundary crossing and that joins keep the totals. Every transition of these "
+             "lie within one 16-bit code of the exact boundary crossing (two dimensions: of the crossing where the line leaves the "
+             "visible rectangle, for every sub-part a merge produces) and that joins keep the totals. Every transition of these "
              "models is replayed into mpt_linepart_linear/_join/_code (library build and the same sources compiled with a scaled "
              "limit) and into the C++ linepart::array::set/apply/join and polyline::set/part (coordinates of points(), line ends "
              "on the boundary); a result that differs from the design is judged by TLC against the meaning (Trace_Linepart). "
@@ -19,8 +20,8 @@ MANIFEST = dict(
              "dimension) and templated runs of 65532..131071 points recorded from the real code are validated by TLC.",
         note="Trusted: TLC, the drivers (projection only: integers to doubles exactly, struct fields copied). Fractions are decided "
              "exactly in integer arithmetic for coordinates below 2^23 (the 16-bit code is then determined); rounding direction for "
-             "general doubles, the logarithmic transform and, for two dimensions, where the line crosses the boundary are not "
-             "decided (points only). Bounded model; memory safety observed by ASan on each executed call.",
+             "general doubles, the logarithmic transform, more than two dimensions and dimensions of different length are not "
+             "decided. Bounded model; memory safety observed by ASan on each executed call.",
         technique="TLA+ spec + TLC exhaustive check; TLC-generated behaviours replayed into the C and C++ code; TLC trace validation of recorded runs",
         design="5/C18")
 
@@ -146,7 +147,34 @@ def signature(step, rec, why):
     if a == "part":
         z = [k for k in ("cut", "trim") if obs.get(k) == 0]
         return "part:%s:%s" % (fld or "rejected", "zero-" + "-".join(z) if z else "nz")
+    if a == "apply2":
+        return "apply2:%s:%s" % (fld or "rejected", merge_tags(obs.get("parts") or [], ((rec or {}).get("dbg") or {}).get("parts0") or []))
     return "%s:%s" % (a, fld or "rejected")
+
+
+def merge_tags(parts, parts0):
+    """Structure of the trims in a two-dimension result relative to the parts of the first dimension
+    (describes the failing case, decides nothing): for a sub-part with a trim, is it the last sub-part of
+    its old part or an inner one, does its line end where the old line ends, and how does its trim compare
+    with the old one."""
+    olds = []
+    s = 0
+    for p in parts0:
+        olds.append((s, s + p[0], s + p[1], p[3]))     # start, raw end, line end, trim
+        s += p[0]
+    tags = set()
+    s = 0
+    for p in parts:
+        raw, usr, cut, trim = p
+        o = next((x for x in olds if x[0] <= s < x[1]), None)
+        if o and usr and o[3]:
+            pos = "last" if s + raw >= o[1] else "inner"
+            end = "same" if s + usr == o[2] else "other"
+            rel = "=old" if trim == o[3] else ("<old" if trim < o[3] else ">old")
+            if (end == "other" and rel == "=old") or (end == "same" and rel == "<old"):
+                tags.add("%s-%s%s" % (pos, end, rel))
+        s += raw
+    return "+".join(sorted(tags)) or "plain"
 
 
 def trace_cfg(lim):
